@@ -81,11 +81,18 @@ def resToJson : Except Err Result → Json
                   ("lrns", ofList rowToJson r.learners), ("vals", ofList rowToJson r.evaluators),
                   ("ints", ofList rowToJson r.interactions)]
 
+/-- request {"op":"minimize","vals":[v…]} → `minimize round5 v`, its second application, and `wire` of each value -/
+def handleMinimize (req : Json) : Except String Json := do
+  let vals ← (← arr (← field req "vals")).mapM parseVal
+  pure (obj [("min", ofList (fun v => valToJson (minimize round5 v)) vals),
+             ("min2", ofList (fun v => valToJson (minimize round5 (minimize round5 v))) vals)])
+
 /-- request: {"info": dict, "phase1": [tx…] | null, "txs": [tx…]}  — `txs` are the transactions of the
 (last) run, `phase1` those already in the file when it started (restored run).
 answer: for every combination of repaired/pinned encoder (`e`) and reader (`r`) the three routes,
 plus the spec side (`specRows`, `normParams`) and the hypotheses of the partial theorems. -/
 def handle (req : Json) : Except String Json := do
+  if !(fieldD req "op" Json.null).isNull then return (← handleMinimize req)
   let info ← parseDict (← field req "info")
   let txs ← (← arr (← field req "txs")).mapM parseTx
   let p1j := fieldD req "phase1" Json.null
@@ -119,7 +126,12 @@ def handle (req : Json) : Except String Json := do
     match tablesOf true (if strip then stripN f else f) with
     | .ok ts => ofList ptableToJson ts
     | .error e => obj [("raised", Json.str (errName e))]
-  pure (obj [("pad", padOf false), ("padS", padOf true),
+  -- phase 3: what the tables must hold when ids are recorded more than once
+  let specLW := ofList rowToJson (specInteractionsLW rnd all)
+  let unions (t : Tbl) (tag : String) : List Json :=
+    ((paramsOf t all).map (·.1)).eraseDups.map (fun id => Json.arr #[Json.str tag, ofInt id, rowToJson (unionParams rnd id (paramsOf t all))])
+  pure (obj [("specLW", specLW), ("unions", Json.arr (unions .E "E" ++ unions .L "L" ++ unions .V "V").toArray),
+             ("pad", padOf false), ("padS", padOf true),
              ("ff", combo false false false), ("ft", combo false true false), ("tf", combo true false false), ("tt", combo true true false),
              ("ffS", combo false false true), ("ftS", combo false true true), ("tfS", combo true false true), ("ttS", combo true true true),
              ("spec", Json.arr spec.toArray), ("params", Json.arr params.toArray)])
